@@ -162,8 +162,10 @@ def run(R, tier):
 
     # *RST / *WAI alter no status register
     for tname in ("RstCommand", "WaiCommand"):
-        hb_, before, rs = effect(tname, "event", fresh_dev(0x3C, 0xC3, 0x99, 2, True, False))
-        ok = len(rs) == 1 and M.outcome(rs[0][0]) == "Ok" and state_of(rs[0][1]) == before and not rs[0][1].data
+        ok = True
+        for esr_, ese_, sre_, nq_, q_, o_ in ((0x3C, 0xC3, 0x99, 2, True, False), (0xFF, 0xFF, 0xFF, 1, True, True), (0x00, 0x00, 0x00, 0, False, False), (0x01, 0x01, 0x20, 1, False, True)):
+            hb_, before, rs = effect(tname, "event", fresh_dev(esr_, ese_, sre_, nq_, q_, o_))
+            ok = ok and len(rs) == 1 and M.outcome(rs[0][0]) == "Ok" and state_of(rs[0][1]) == before and not rs[0][1].data
         R.check(ok, "R16.6", "*%s" % tname.replace("Command", "").upper(), "no status register, queue or event register is altered", "*%s changes the status state: %s -> %s" % (tname.replace("Command", "").upper(), before, [(M.outcome(r), state_of(d)) for r, d in rs]), where=hb_.span)
     # *OPC sets the operation-complete bit (and records the event), *OPC? answers 1
     bad = []
